@@ -59,7 +59,8 @@ META = dict(
                "inside the history); the closed file, the optimized file and a backup are read RAW with the storage layer only (VStorage<FileStorage>: index -> bytes of every live record) and given to the extracted load_db; "
                "the full ordered dump of the loaded model database must equal, as a line, the dump of the same file reopened as a real database (class stored-db-mismatch), which must equal the dump before the drop "
                "(stored-reopen-differs); (d) core mutations as storage programs (hx_core ops, extract/m_ops.ml): on real database files after generated histories (removals included, so the free list is non-empty; some with an index on an unused key), the file IMAGE is opened by the extracted storage model (its live records must equal the raw records of the real file: stored-ops-open-mismatch), the extracted programs so_open 1 ;; so_q_insert_node / so_q_insert_values / so_q_insert_edge / so_q_remove (remove ids: an edge — head or not of its two lists — or a node without edges and alias; the element's property vector and out-of-line records freed) (the core operations as the public queries insert nodes values / insert values ids / insert edges issue them inside transaction_mut's storage transaction) are run on it, and the resulting record map index -> bytes must equal EXACTLY (record indexes in allocation order, spare-capacity bytes, out-of-line value records, returned id; nothing normalised) the raw records of the real file after the real database, reopened from that file, executed the same query (stored-ops-mismatch). The *_guarded theorems state the L1 results for the recovery with the position check of apply_wal_record (model recover_g, fix 826414a): "
-               "on logs the storage wrote the check never fires (C01_guarded_recovery_agrees).",
+               "on logs the storage wrote the check never fires (C01_guarded_recovery_agrees). "
+               "LINK OF THE STORAGE PROGRAMS TO THE VALIDATED QUERY SEMANTICS (theories/StoredDbOpsLink*.v): for the query shapes the correspondence (d) executes — InsertNodes 1 (Single l) [] (Ids []), InsertValues (Ids [QId id]) (Single l), InsertEdges (Ids [QId f]) (Ids [QId t]) (Single []) false (Ids []), Remove (Ids [QId id]) — Queries.exec_mut_step is exactly the composition of DbModel functions the so_q_* theorems mention (C05_db_exec_step_shapes, every revision), a successful exec = step + commit (C05_db_exec_commits), and the programs end in a store HOLDING fst (exec rv d q) and return the id / count snd (exec rv d q) reports: C05_db_exec_insert_node / _insert_values / _insert_edge / _remove_edge / _remove_isolated_node _preserves_stored_db (full for these shapes), with C05_db_query_insert_edge_preserves_stored_db (so_q_insert_edge, invalid endpoint included) and C05_db_exec_insert_edge_rejected_preserves_stored_db (an endpoint that is not a node, database at rest: exec fails and returns d, the program returns None and writes nothing — the rejected insertions of the correspondence; covered in the histories too, C05_db_sample_covered_rejected). The graph side conditions are no longer assumed: so_edge_ok, so_remove_edge_ok and the index bounds follow from C08's wf + capacity < 2^60 (C05_db_edge_side_conditions_from_wf, with C05_db_graph_side_condition_from_wf). C05_db_covered_query_preserves_stored_db: wf (gr d) + so_covered d c (capacity < 2^60, ids existing, keys not indexed, valid values, vectors < 2^64 bytes; a removed element has at least one property — so that its property vector is provably allocated) suffice. C05_db_covered_histories_preserve_stored_db_partial: every list of covered queries from a stored database satisfying HInv (Inv, db_ok, empty undo stack: C13_history_invariant) — the programs in sequence end in a store holding the fold of exec rv_fixed (C05_db_covered_model_is_exec_fold), return exec's ids, HInv again; PARTIAL: aliases, indexes, cascading removals, removal of an element without properties, multi-element queries, failing queries (rollback), multi-query transactions, remove values are not covered. so_covered is decidable (C05_db_covered_decidable: the boolean so_coveredb); the same on the model of storage.rs for both kinds of back-end: C05_db_covered_histories_on_storage_partial; END TO END for covered histories: C05_db_covered_histories_then_reopen_partial — programs of the history, then optimize_storage / drop + open / backup + open, then load_db: the loaded database is the fold of exec up to sd_eqv and answers every sd_query_ok query exactly as it does. WITHOUT THE PROPERTY RESTRICTION (theories/StoredDbOpsLinkKv/Slots/Hist2/Final2.v): slots_ok d w — every existing element's slot of the DbKeyValues slot vector is allocated, an invariant of (database, witness) true of every file the real database writes — is preserved by every covered query (the kv / query programs re-proved with the slot vector visible; the set of elements changes by exactly the created / removed element, from C08's simulation): C05_db_covered2_query_preserves_stored_db, C05_db_covered2_histories_preserve_stored_db_partial, C05_db_covered2_histories_on_storage_partial, C05_db_covered2_histories_then_reopen_partial (so_covered2: a removal needs no property; decidable: C05_db_covered2_decidable; non-vacuity C05_db_sample_covered2_history: a replayed run on the sample file establishes slots_ok, then [insert edge; remove that property-less edge] is covered). Non-vacuity: C05_db_sample_covered, C05_db_sample_covered_history (the example database is reached by four public queries from db_new, hence HInv; it is stored; a two-query covered history).",
     design_ref="DESIGN.md §5 C05",
     level_note="Trusted: Coq kernel, extraction, OCaml driver, Rust harness (its generators and shadow structures), hook H4 (delegating wrappers, add-only, cfg(agdb_verif)). The storage model is tied to storage.rs by "
                "the C04 correspondence, the collection model to vec.rs / map.rs / graph.rs by the exact byte-level correspondence of this check, the loader load_db to DbImpl::new + complete reads by correspondence (c) on real files, the core-mutation programs of StoredDbOps.v to db.rs / graph.rs / db_key_value.rs by correspondence (d) (exact record bytes). DbMemory 'reopen' = backup to a file + open.",
